@@ -25,9 +25,9 @@ def lst(l):
 def model_text(cfg):
     out = ["CASE factory %d %d" % (cfg["T"], cfg.get("maxsteps", 6000))]
     for n in cfg["nodes"]:
-        out.append("NODE %s %d %d %d %s %s %s %s %s %s" % (
+        out.append("NODE %s %d %d %d %s %s %s %s %s %s %d" % (
             n["kind"], n["setup"], 1 if n["blocking"] else 0, n["wcap"], pol_str(n["insel"]), pol_str(n["outsel"]),
-            lst(n["delays"]), lst(n["ins"]), lst(n["outs"]), lst(n.get("recipe", []))))
+            lst(n["delays"]), lst(n["ins"]), lst(n["outs"]), lst(n.get("recipe", [])), 1 if n.get("pallet") else 0))
     for e in cfg["edges"]:
         if e["kind"] == "buffer":
             out.append("EDGE buffer %d %s %s %d %d" % (e["cap"], e["mode"], lst(e["delays"]), e["src"], e["dst"]))
@@ -46,6 +46,7 @@ class Log:
         self.env = None
         self.items = []
         self.src_index = {}
+        self.node_index = {}
 
 
 class StatsDict(dict):
@@ -100,7 +101,7 @@ def sel_arg(log, nidx, what, p, style):
 
 def run_impl(cfg):
     """returns the canonical output lines of the implementation"""
-    mods = {k: common.load(k) for k in ("nodes.source", "nodes.machine", "nodes.sink", "edges.buffer", "edges.fleet",
+    mods = {k: common.load(k) for k in ("nodes.source", "nodes.machine", "nodes.sink", "nodes.splitter", "nodes.combiner", "edges.buffer", "edges.fleet",
                                          "base.buffer_store", "base.fleet_store", "nodes.node", "edges.edge")}
     log = Log()
     env = simpy.Environment()
@@ -116,6 +117,13 @@ def run_impl(cfg):
                 log.items.append(self)
                 name = id.split("_", 1)[1].rsplit("_", 1)[0]
                 log.lines.append("G %d %d %d" % (env.now, log.src_index.get(name, -1), self._vidx))
+        if hasattr(base, "add_item"):
+            def add_item(self, item, _b=base):
+                f = sys._getframe(1)
+                node = f.f_locals.get("self")
+                log.lines.append("K %d %d %d %d" % (env.now, log.node_index.get(id(node), -1), self._vidx, getattr(item, "_vidx", -1)))
+                return _b.add_item(self, item)
+            Logged.add_item = add_item
         Logged.__name__ = base.__name__
         return Logged
     LItem, LPallet = mk(BaseItem), mk(BasePallet)
@@ -133,14 +141,24 @@ def run_impl(cfg):
                 if n["kind"] == "source":
                     log.src_index[name] = i
                     obj = mods["nodes.source"].Source(env, name, inter_arrival_time=stream(log, i, 0, n["delays"], st),
-                                                      blocking=n["blocking"], out_edge_selection=sel_arg(log, i, 2, n["outsel"], st))
+                                                      blocking=n["blocking"], out_edge_selection=sel_arg(log, i, 2, n["outsel"], st),
+                                                      flow_item_type="pallet" if n.get("pallet") else "item")
                 elif n["kind"] == "machine":
                     obj = mods["nodes.machine"].Machine(env, name, node_setup_time=n["setup"], work_capacity=n["wcap"],
                                                         processing_delay=stream(log, i, 0, n["delays"], st), blocking=n["blocking"],
                                                         in_edge_selection=sel_arg(log, i, 1, n["insel"], st),
                                                         out_edge_selection=sel_arg(log, i, 2, n["outsel"], st))
+                elif n["kind"] == "splitter":
+                    obj = mods["nodes.splitter"].Splitter(env, name, node_setup_time=n["setup"], processing_delay=stream(log, i, 0, n["delays"], st),
+                                                          blocking=n["blocking"], in_edge_selection=sel_arg(log, i, 1, n["insel"], st),
+                                                          out_edge_selection=sel_arg(log, i, 2, n["outsel"], st))
+                elif n["kind"] == "combiner":
+                    obj = mods["nodes.combiner"].Combiner(env, name, node_setup_time=n["setup"], target_quantity_of_each_item=list(n["recipe"]),
+                                                          processing_delay=stream(log, i, 0, n["delays"], st), blocking=n["blocking"],
+                                                          out_edge_selection=sel_arg(log, i, 2, n["outsel"], st))
                 else:
                     obj = mods["nodes.sink"].Sink(env, name)
+                log.node_index[id(obj)] = i
                 if n["kind"] == "source":
                     obj.node_setup_time = n["setup"]
                 obj.stats = StatsDict(obj.stats, log, i)
@@ -202,6 +220,11 @@ def run_impl(cfg):
             if n["kind"] == "source":
                 tstate = [ts["SETUP_STATE"], ts["GENERATING_STATE"], ts["BLOCKED_STATE"]]
                 occ, sp, sb = [], 0, 0
+            elif n["kind"] in ("splitter", "combiner"):
+                tstate = [ts["SETUP_STATE"], ts["IDLE_STATE"], ts["PROCESSING_STATE"], ts["BLOCKED_STATE"]]
+                occ = nd.time_per_work_occupancy
+                sp = nd.per_thread_total_time_in_processing_state * nd.work_capacity
+                sb = nd.per_thread_total_time_in_blocked_state * nd.work_capacity
             elif n["kind"] == "machine":
                 tstate = [ts["SETUP_STATE"], ts["IDLE_STATE"], ts["ATLEAST_ONE_PROCESSING_STATE"], ts["ALL_ACTIVE_BLOCKED_STATE"],
                           ts["ALL_ACTIVE_PROCESSING_STATE"], ts["ATLEAST_ONE_BLOCKED_STATE"]]
@@ -283,6 +306,14 @@ def strip_const_draws(cfg, lines):
 
 
 def compare(cfg, impl, model):
+    ci = [l for l in impl if l.startswith("CRASH")]
+    cm = [l for l in model if l.startswith("CRASH")]
+    if ci or cm:
+        # an unhandled exception: both sides must crash with the same exception class (the suffix of
+        # the trace inside the crashing instant is not compared)
+        a = ci[0].split()[1] if ci else None
+        b = cm[0].split()[1].split("@")[0].split("(")[0] if cm else None
+        return None if a == b else (0, ci[:1] or impl[-1:], cm[:1] or model[-1:])
     if impl == ["EXHAUSTED"] or "EXHAUSTED" in model:
         # a zero-time livelock / step budget: both sides must agree that the run does not finish
         return None if (impl == ["EXHAUSTED"]) == ("EXHAUSTED" in model) else (0, impl[:1], [l for l in model if l == "EXHAUSTED"][:1])
@@ -374,3 +405,70 @@ def gen_config(rng, with_fleet=False):
     order = ["N%d" % i for i in range(len(nodes))] + ["E%d" % i for i in range(len(edges))]
     rng.shuffle(order)
     return dict(model="factory", T=rng.choice([10, 20, 30, 40]), nodes=nodes, edges=edges, connects=connects, order=order)
+
+
+def gen_config_sc(rng):
+    """factories with pallets: pallet source + item sources -> combiner -> (machine) -> splitter -> sinks"""
+    nodes, edges = [], []
+
+    def node(kind, **kw):
+        d = dict(kind=kind, ins=[], outs=[], recipe=[], pallet=False)
+        d.update(kw)
+        nodes.append(d)
+        return len(nodes) - 1
+
+    def edge(s, d):
+        edges.append(dict(kind="buffer", cap=rng.choice([1, 2, 2, 3, 4]), mode=rng.choice(["FIFO", "FIFO", "LIFO"]),
+                          delays=rng.choice([[0], [0], [1], [2], [0, 1]]), style=rng.choice(["const", "callable", "generator"]), src=s, dst=d))
+        if edges[-1]["style"] == "const":
+            edges[-1]["delays"] = edges[-1]["delays"][:1]
+        return len(edges) - 1
+    shape = rng.choice(["comb", "split", "both", "both"])
+    ps = node("source", pallet=True)
+    last = ps
+    if shape in ("comb", "both"):
+        k = rng.choice([1, 1, 2])
+        srcs = [node("source") for _ in range(k)]
+        c = node("combiner", recipe=[0] + [rng.choice([1, 1, 2, 3]) for _ in range(k)])
+        edge(ps, c)
+        for s_ in srcs:
+            edge(s_, c)
+        last = c
+    if shape in ("both",) and rng.random() < 0.4:
+        m = node("machine")
+        edge(last, m)
+        last = m
+    if shape in ("split", "both"):
+        sp = node("splitter")
+        edge(last, sp)
+        last = sp
+    for _ in range(rng.choice([1, 1, 2])):
+        sk = node("sink")
+        edge(last, sk)
+    # connect order: the combiner's pallet edge must be its in-edge 0
+    connects = [(i, e["src"], e["dst"]) for i, e in enumerate(edges)]
+    pallet_first = [c for c in connects if nodes[c[2]]["kind"] == "combiner" and nodes[c[1]].get("pallet")]
+    rest = [c for c in connects if c not in pallet_first]
+    rng.shuffle(rest)
+    connects = pallet_first + rest
+    for (i, s, d) in connects:
+        nodes[s]["outs"].append(i)
+        nodes[d]["ins"].append(i)
+    for n in nodes:
+        n["style"] = rng.choice(["const", "callable", "generator"])
+        n["blocking"] = rng.random() < 0.65
+        n["setup"] = rng.choice([0, 0, 1, 2])
+        n["wcap"] = rng.choice([1, 2]) if n["kind"] == "machine" else 1
+        n["insel"] = gen_policy(rng, max(1, len(n["ins"]))) if n["kind"] in ("machine", "splitter") else ("FA",)
+        n["outsel"] = gen_policy(rng, max(1, len(n["outs"]))) if n["kind"] != "sink" else ("FA",)
+        if n["kind"] == "source":
+            n["delays"] = rng.choice([[1], [2], [1, 2], [3, 1, 1], [2, 5]])
+        elif n["kind"] in ("machine", "splitter", "combiner"):
+            n["delays"] = rng.choice([[0], [1], [2], [1, 3], [0, 2]])
+        else:
+            n["delays"] = [0]
+        if n["style"] == "const":
+            n["delays"] = n["delays"][:1]
+    order = ["N%d" % i for i in range(len(nodes))] + ["E%d" % i for i in range(len(edges))]
+    rng.shuffle(order)
+    return dict(model="factory", T=rng.choice([15, 25, 40]), nodes=nodes, edges=edges, connects=connects, order=order)
